@@ -44,6 +44,8 @@ def _support(draw, vals, spanning=False):
         sup["nb_points"] = draw(st.integers(4, 12) if spanning else st.integers(2, 12))
     elif kind != "nothing" and not spanning and draw(st.booleans()):
         sup["nb_points"] = draw(st.integers(0, 12))  # supplied points AND nb_points
+    if "nb_points" in sup:
+        sup["nb_kind"] = draw(st.sampled_from(["py", "py", "int64", "int32"]))
     return sup
 
 
@@ -61,6 +63,8 @@ def _kwargs(sup):
             kw[k] = np.asarray(sup[k], dtype=float)
     if "nb_points" in sup:
         kw["nb_points"] = sup["nb_points"]
+        if sup.get("nb_kind", "py") != "py":
+            kw["nb_points"] = np.dtype(sup["nb_kind"]).type(sup["nb_points"])  # a count computed with NumPy
     return kw
 
 
